@@ -51,4 +51,5 @@ var Checks = map[string]func(env *Env, rep *Report){
 	"C10": RunC10,
 	"C11": RunC11,
 	"C14": RunC14,
+	"C15": RunC15,
 }
